@@ -125,7 +125,8 @@ def apalache(module, init, inv, length, cinit="ConstInit", timeout=900):
     out_dir = workdir("apalache-%s-%s-%s-%d" % (module, init, inv, length))
     e = dict(os.environ)
     e.pop("JAVA_TOOL_OPTIONS", None)
-    e["JVM_ARGS"] = "-Xmx4g -Djava.io.tmpdir=%s" % out_dir
+    e["JVM_ARGS"] = "-Xmx4g"
+    e["TMPDIR"] = out_dir          # (the launcher makes its SANY scratch directory there; removed with out_dir)
     cmd = ["apalache-mc", "check", "--cinit=" + cinit, "--init=" + init, "--inv=" + inv, "--length=%d" % length,
            "--out-dir=" + out_dir, "--run-dir=" + os.path.join(out_dir, "run"), module + ".tla"]
     t0 = time.time()
